@@ -103,7 +103,10 @@ def fn_proof_perturbed(unit, f, safety=False):
     ch = [it for it in cands if it['status'] != 'identical']
     # ... except when the edit only took executable text away and no proof statement went with it: the annotations then still
     # stand on the statements they were written for, and what fails is what the remaining code no longer does
-    return bool(ch) and all((it.get('restructured') and it.get('perturbed') and not (it.get('deleted_only') and not it.get('dropped')))
+    # ... and likewise when whole statements were put in, taken out or moved across an early exit and nothing else was touched
+    def intact(it):
+        return (it.get('deleted_only') or it.get('whole_stmt')) and not it.get('dropped')
+    return bool(ch) and all((it.get('restructured') and it.get('perturbed') and not intact(it))
                             or it.get('dropped') or (it.get('rearranged') and not safety) for it in ch)
 
 
